@@ -87,7 +87,12 @@ Proof.
     apply negb_true_iff in H. rewrite dec_flow_record_unknown; [reflexivity|exact H].
   - (* header *)
     prep. subst fmt. cbn [dec_flow_record].
-    rewrite (rd_fields_u32s [v0; v1; v2; v3]) by mk32. reflexivity.
+    rewrite (rd_fields_u32s [v0; v1; v2; v3]) by mk32. cbv zeta. cbn [nth]. unfold b0. cbn [nth].
+    subst v3. unfold lenN. rewrite Nat2N.id, app_length, repeat_length.
+    destruct (pad4 (length b0')) as [|n] eqn:Ep.
+    + cbn [repeat]. rewrite app_nil_r. replace (N.of_nat (length b0') <? N.of_nat (length b0' + 0)) with false by lia. reflexivity.
+    + replace (N.of_nat (length b0') <? N.of_nat (length b0' + S n)) with true by lia.
+      rewrite firstn_exact. reflexivity.
   - (* ethernet *)
     prep. subst fmt. cbn [dec_flow_record]. unfold v, b0, b1. cbn [nth].
     rewrite rd4_e4 by assumption. rewrite read_app by assumption. rewrite read_app by assumption.
